@@ -112,6 +112,15 @@ def generate(r, tier):
             # a constructor (possibly reaching a wrapped base constructor through super().__init__()) as the faulted call
             cs = r.choice(world["classes"])
             scn["base"] = {"id": "b", "fn": "__init__", "op": "new", "cls": cs["name"], "obj": "nb"}
+        if not is_async and r.random() < 0.12:
+            # a contract class WITHOUT a constructor of its own (the library installs a cooperative one) combined with a plain mix-in
+            # whose constructor takes the arguments: whatever that constructor raises is the outcome of the construction
+            world["classes"] += [
+                {"name": "KA", "init": None, "invs": [{"check_on": "CALL"}], "methods": []},
+                {"name": "MX", "dbc": False, "init": {"super": "first"}, "invs": [], "methods": []},
+                {"name": "KB", "base": "KA", "bases2": ["MX"], "init": None, "invs": [], "methods": []},
+            ]
+            scn["base"] = {"id": "b", "fn": "__init__", "op": "new", "cls": "KB", "obj": "nb"}
         if world.get("classes") and world["classes"][0].get("invs") and "obj" in scn["base"] and r.random() < 0.5:
             inv = "K0/inv%d" % r.randrange(len(world["classes"][0]["invs"]))
             scn["base"]["poke"] = {inv: False}
